@@ -10,13 +10,20 @@
         tested against the rendered level path ([Path.PathModel.render]) as the code does.
     [not_under P p]  no prefix of the key sequence p (p itself and the root included) satisfies P.
     [related Q p]    p is at, below or above one of the key sequences Q.
+    [xguard P E c t1 t2] / [iguard Q c t1 t2]  the INPUT-LEVEL guards (Filter/FilterExact.v, FilterGuard.v): computed by one walk
+        over the pair along the levels the filtered run reaches - at two dictionaries the whole-dict shortcut of
+        threshold_to_diff_deeper is decided alike on the filtered key sets / reduced union and on the full ones; at two
+        all-atom sequences in the default alignment mode the index children are kept or dropped together.
+    [run_full ...]   the run with the WHOLE _skip_this chain (Filter/FilterModelV.v): exclude_types, exclude_obj_callback(_strict),
+        include_obj_callback(_strict) next to the three path options; callbacks are oracles [value -> bool].
     [hatom udiff ops rx] are oracles (DeepHash of a set member, difflib.unified_diff, difflib opcodes, re.search):
     every statement holds for all of them. *)
 From Coq Require Import List ZArith NArith Bool Arith.
 Import ListNotations.
 From DD Require Import Base.PyStr Base.Value Diff.Tree Diff.DiffModel Path.PathModel
   Filter.FilterModel Filter.FilterProofs Filter.FilterExclude Filter.FilterThreshold Filter.FilterInclude
-  Filter.FilterWitness Filter.FilterIndep Filter.FilterHash.
+  Filter.FilterWitness Filter.FilterIndep Filter.FilterHash Filter.FilterGuard Filter.FilterExact Filter.FilterWitness2
+  Filter.FilterModelV Filter.FilterV Filter.FilterIndepG.
 
 (** ** Exclusion: literal (P = membership of the rendered path in exclude_paths) or by regex (P arbitrary) *)
 
@@ -265,3 +272,180 @@ Theorem C13_coherent_filter :
   filter (keep_entry R) (fst (run_diffx hatom udiff ops no_skip E' no_kf c t1 t2)).
 Proof. intros. eapply run_general; eassumption. Qed.
 Print Assumptions C13_coherent_filter.
+
+(** ** Round 3: input-level guards instead of "threshold 0 / stable" and "positional / idx_closed" *)
+
+(** EVERY mode, EVERY threshold: under the input-level guard exclusion (literal and / or regex) is a pure filter.
+    In the default alignment mode the excluded paths may end in an index of a sequence that holds a container
+    (Example xguard_default_index_example); at a positive threshold the guard only looks at the dictionaries the
+    filtered run reaches (Example xguard_below_excluded_example: [stable] fails, [xguard] holds). *)
+Theorem C13_exclude_guarded :
+  forall hatom udiff ops (P E : path -> bool) (c : cfg) (t1 t2 : value),
+  wf t2 = true -> xguard P E c t1 t2 = true ->
+  fst (run_diff hatom udiff ops P E c t1 t2) =
+  filter (fun e => not_under P (ep1 e)) (fst (run_diff hatom udiff ops no_skip no_skip c t1 t2)).
+Proof. intros. apply exclude_filter_guard; assumption. Qed.
+Print Assumptions C13_exclude_guarded.
+
+(** ... and EXACTLY then (positional mode for arbitrary predicates, default mode for predicates not ending in an index):
+    the characterisation of finding K13a - the filter equation holds iff no dictionary the filtered run compares
+    flips its whole-dict shortcut when the excluded keys leave the union. *)
+Theorem C13_exclude_threshold_exact :
+  forall hatom udiff ops (P E : path -> bool) (c : cfg) (t1 t2 : value),
+  zip c = true \/ idx_closed P -> wf t1 = true -> wf t2 = true ->
+  (fst (run_diff hatom udiff ops P E c t1 t2) =
+   filter (fun e => not_under P (ep1 e)) (fst (run_diff hatom udiff ops no_skip no_skip c t1 t2))
+   <-> xguard P E c t1 t2 = true).
+Proof. intros. apply exclude_guard_exact; assumption. Qed.
+Print Assumptions C13_exclude_threshold_exact.
+
+(** the new guard is implied by the former ones ([stable] + positional / idx_closed; threshold 0 is [stable_thr0]) *)
+Theorem C13_exclude_guard_weaker :
+  forall (P E : path -> bool) (c : cfg) (t1 t2 : value),
+  zip c = true \/ idx_closed P -> stable E c t1 t2 [] = true -> xguard P E c t1 t2 = true.
+Proof. intros. apply stable_xguard; assumption. Qed.
+Print Assumptions C13_exclude_guard_weaker.
+
+(** include_paths in EVERY mode at EVERY threshold under the input-level guard (Example iguard_example: default mode,
+    default threshold, include path through a list index) *)
+Theorem C13_include_guarded :
+  forall hatom udiff ops (c : cfg) (Q : list path) (t1 t2 : value),
+  Q <> [] -> Forall (fun q => forallb qkey q = true) Q ->
+  Forall (fun q => forallb str_key q = true) Q \/ Forall (fun q => forallb nodigit_key q = true) Q ->
+  wf t2 = true -> keys_all ok_atom t1 = true -> keys_all ok_atom t2 = true ->
+  iguard Q c t1 t2 = true ->
+  fst (run_filtered hatom udiff ops no_skip [] (map render Q) c t1 t2) =
+  filter (fun e => related Q (ep1 e)) (fst (run_diff hatom udiff ops no_skip no_skip c t1 t2)).
+Proof. intros. apply include_filter_guard; assumption. Qed.
+Print Assumptions C13_include_guarded.
+
+(** without the guard include_paths fail at a positive threshold like exclude_paths do (K13a): the key filter shrinks
+    both key sets of the parent, {'a':1,'b':2,'c':3} -> {'a':2,'x':2,'y':3}, include root['a'] *)
+Theorem C13_include_threshold_refuted :
+  exists hatom udiff ops (c : cfg) (Q : list path) (t1 t2 : value),
+  Q <> [] /\ Forall (fun q => forallb str_key q = true) Q /\ zip c = true /\ wf t2 = true /\
+  keys_all ok_atom t1 = true /\ keys_all ok_atom t2 = true /\
+  fst (run_filtered hatom udiff ops no_skip [] (map render Q) c t1 t2) <>
+  filter (fun e => related Q (ep1 e)) (fst (run_diff hatom udiff ops no_skip no_skip c t1 t2)).
+Proof.
+  exists h0, u0, o0, positional33, g4_Q, g4_t1, g4_t2.
+  split; [discriminate|]. split; [repeat constructor|]. repeat (split; [reflexivity|]).
+  intros H. vm_compute in H. discriminate H.
+Qed.
+Print Assumptions C13_include_threshold_refuted.
+
+(** the general theorem with the input-level guard *)
+Theorem C13_coherent_filter_guarded :
+  forall hatom udiff ops (c : cfg) (sk : path -> bool) (kf : path -> atom -> bool) (E E' R okp : path -> bool)
+         (okk : atom -> bool),
+  (forall p a, okp p = true -> okk a = true -> okp (snoc p (PKey a)) = true) ->
+  (forall p i, okp p = true -> okp (snoc p (PIdx i)) = true) ->
+  (forall p, okp p = true -> R p = true -> sk p = false) ->
+  (forall p k, R (snoc p k) = true -> R p = true) ->
+  (forall p a b, okp p = true -> okk a = true -> okk b = true -> R p = true ->
+     py_eq a b = true -> R (snoc p (PKey b)) = true -> kf p a = false) ->
+  (forall p a, okp p = true -> okk a = true -> R p = true ->
+     R (snoc p (PKey a)) = false -> kf p a = true \/ sk (snoc p (PKey a)) = true) ->
+  (forall p i, okp p = true -> R p = true -> R (snoc p (PIdx i)) = false -> sk (snoc p (PIdx i)) = true) ->
+  forall t1 t2, wf t2 = true -> keys_all okk t1 = true -> keys_all okk t2 = true -> okp [] = true -> R [] = true ->
+  guard c kf E E' R t1 t2 [] = true ->
+  fst (run_diffx hatom udiff ops sk E kf c t1 t2) =
+  filter (keep_entry R) (fst (run_diffx hatom udiff ops no_skip E' no_kf c t1 t2)).
+Proof. intros. eapply run_general_g; eassumption. Qed.
+Print Assumptions C13_coherent_filter_guarded.
+
+(** ** Round 3: the whole _skip_this chain *)
+
+(** without object-dependent options [run_full] is the run of all theorems above *)
+Theorem C13_full_chain_path_only :
+  forall hatom udiff ops (rx : path -> bool) (rxh : path -> nat -> bool) (ex inc : list pystr) (c : cfg) (t1 t2 : value),
+  run_full hatom udiff ops rx rxh ex inc [] no_cb no_cb None None c t1 t2 =
+  run_filtered_h hatom udiff ops rx rxh ex inc c t1 t2.
+Proof. exact run_full_path_only. Qed.
+Print Assumptions C13_full_chain_path_only.
+
+(** the precedence defect behind K13d in general: once include_paths is given, exclude_regex_paths, exclude_types and
+    the four callbacks are dead at every level but the root - when they leave the root alone the run is the run
+    without them (the root must not be a set: its items carry the root path) *)
+Theorem C13_include_shadows_other_options :
+  forall hatom udiff ops (rx : path -> bool) (rxh : path -> nat -> bool) (ex inc : list pystr) (TY : list ty)
+         (cb cbs : value -> bool) (icb icbs : option (value -> bool)) (c : cfg) (t1 t2 : value),
+  add_root_to_paths inc <> [] -> is_setv t1 = false ->
+  skip_full rx (add_root_to_paths ex) (add_root_to_paths inc) TY cb cbs icb icbs [] (Some t1) (Some t2) =
+    skip_this no_skip (add_root_to_paths ex) (add_root_to_paths inc) [] ->
+  run_full hatom udiff ops rx rxh ex inc TY cb cbs icb icbs c t1 t2 =
+  run_filtered_h hatom udiff ops no_skip rxh ex inc c t1 t2.
+Proof. intros. apply run_full_include_shadows; assumption. Qed.
+Print Assumptions C13_include_shadows_other_options.
+
+(** concretely: include_paths=["root['a']"] + exclude_types=[int] reports the int at root['a']['b'] *)
+Theorem C13_include_shadows_types_refuted :
+  exists hatom udiff ops (inc : list pystr) (c : cfg) (t1 t2 : value) (e : entry),
+  In e (fst (run_full hatom udiff ops no_skip no_rxh [] inc [TInt] no_cb no_cb None None c t1 t2)) /\
+  ~ In e (fst (run_full hatom udiff ops no_skip no_rxh [] [] [TInt] no_cb no_cb None None c t1 t2)).
+Proof.
+  exists h0, u0, o0, v1_inc, positional0, v1_t1, v1_t2, v1_e.
+  split; [vm_compute; left; reflexivity|]. intros H. vm_compute in H. destruct H as [H|[]]. discriminate H.
+Qed.
+Print Assumptions C13_include_shadows_types_refuted.
+
+(** without include options the verdict of _skip_this is the plain disjunction of the exclusion tests: literal path,
+    regex, type of either object, callback on either object, strict callback on both *)
+Theorem C13_exclusions_are_a_disjunction :
+  forall (rx : path -> bool) (EX : list pystr) (TY : list ty) (cb cbs : value -> bool) (p : path) (a b : option value),
+  skip_full rx EX [] TY cb cbs None None p a b =
+  mem_str (render p) EX || rx p || (ty_hit TY a || ty_hit TY b) || (cbv cb a || cbv cb b) || (cbv cbs a && cbv cbs b).
+Proof. exact skip_full_exclusions. Qed.
+Print Assumptions C13_exclusions_are_a_disjunction.
+
+(** ** Round 3: independence in the default alignment mode under an input-level guard *)
+
+(** [mguard0 del P E c t1 t2]: at every pair of sequences the filtered run reaches whose items are atoms once the
+    skipped items are blanked (the pair difflib would get), no index child is skipped.  Under it - in EVERY mode - two
+    input pairs that agree outside the skipped positions get the same filtered (kind, path, path) list. *)
+Theorem C13_exclude_independent_guarded :
+  forall hatom udiff ops (P E : path -> bool) (c : cfg) (del : bool) (t1 t2 t1' t2' : value),
+  del = false \/ thr_num c = 0 ->
+  keys_all key_plain t1 = true -> keys_all key_plain t2 = true ->
+  keys_all key_plain t1' = true -> keys_all key_plain t2' = true ->
+  mguard0 del P E c t1 t2 = true -> mguard0 del P E c t1' t2' = true ->
+  prune del P [] t1 = prune del P [] t1' -> prune del P [] t2 = prune del P [] t2' ->
+  map proj (fst (run_diff hatom udiff ops P E c t1 t2)) = map proj (fst (run_diff hatom udiff ops P E c t1' t2')).
+Proof. intros. eapply exclude_agree_g; eassumption. Qed.
+Print Assumptions C13_exclude_independent_guarded.
+
+(** the former mode guard implies it *)
+Theorem C13_exclude_independent_guard_weaker :
+  forall (del : bool) (P E : path -> bool) (c : cfg) (t1 t2 : value),
+  zip c = true \/ idx_closed P -> mguard0 del P E c t1 t2 = true.
+Proof. intros. apply mguard0_of_mode. assumption. Qed.
+Print Assumptions C13_exclude_independent_guard_weaker.
+
+(** without it independence FAILS in the default mode: under exclude_paths=['root[3]'] the pair
+    [1,2,3,{'a':1}] / [2,3,4,{'a':2}] is compared pairwise (three values_changed) while [1,2,3,None] / [2,3,4,None]
+    goes to difflib (one removal, one addition) - whether the EXCLUDED item is a container decides how its siblings
+    are aligned.  (Default mode with a path ending in a list index: outside the property's quantifier.) *)
+Theorem C13_exclude_independent_default_index_refuted :
+  exists hatom udiff ops (P E : path -> bool) (c : cfg) (t1 t2 t1' t2' : value),
+  zip c = false /\ thr_num c = 0 /\
+  keys_all key_plain t1 = true /\ keys_all key_plain t2 = true /\ keys_all key_plain t1' = true /\ keys_all key_plain t2' = true /\
+  prune false P [] t1 = prune false P [] t1' /\ prune false P [] t2 = prune false P [] t2' /\
+  map proj (fst (run_diff hatom udiff ops P E c t1 t2)) <> map proj (fst (run_diff hatom udiff ops P E c t1' t2')).
+Proof.
+  exists w8_h, w8_u, wi_ops, wi_P, no_skip, wi_c, wi_t1, wi_t2, wi_t1', wi_t2'.
+  destruct independent_default_index_refuted as (A & B & C & D & _).
+  split; [reflexivity|]. split; [reflexivity|]. do 4 (split; [reflexivity|]).
+  split; [exact A|]. split; [exact B|]. rewrite C, D. discriminate.
+Qed.
+Print Assumptions C13_exclude_independent_default_index_refuted.
+
+(** ** Round 3: sets of paths mixing literal and regex exclusion, on the options as the caller passes them *)
+Theorem C13_exclude_options_guarded :
+  forall hatom udiff ops (rx : path -> bool) (ex : list pystr) (c : cfg) (t1 t2 : value),
+  wf t2 = true -> xguard (excluded rx ex) (excl_this (add_root_to_paths ex)) c t1 t2 = true ->
+  fst (run_filtered hatom udiff ops rx ex [] c t1 t2) =
+  filter (fun e => not_under (excluded rx ex) (ep1 e)) (fst (run_diff hatom udiff ops no_skip no_skip c t1 t2)).
+Proof.
+  intros. unfold run_filtered. rewrite run_diffx_no_kf. apply exclude_filter_guard; assumption.
+Qed.
+Print Assumptions C13_exclude_options_guarded.
